@@ -495,3 +495,154 @@ Proof.
     apply negb_true_iff, Z.eqb_neq. lia. }
   rewrite A, B. reflexivity.
 Qed.
+
+(* ================================================================ every accepted literal is a valid xs:duration *)
+Inductive tok (c : ascii) : option Z -> str -> Prop :=
+| TokNone : tok c None []
+| TokSome ds : ds <> [] -> forallb is_digit ds = true -> tok c (Some (int_dec ds)) (ds ++ [c]).
+Lemma opt_field_shape c s o r : opt_field c s = (o, r) -> exists t, s = t ++ r /\ tok c o t.
+Proof.
+  unfold opt_field. destruct (span is_digit s) as [ds r0] eqn:Sp. destruct (span_spec _ _ _ _ Sp) as (E & Hd & _).
+  destruct ds as [|d0 ds']; [intros [= <- <-]; exists []; split; [reflexivity|constructor]|].
+  destruct r0 as [|x r']; [intros [= <- <-]; exists []; split; [reflexivity|constructor]|].
+  destruct (ceq x c) eqn:C; [|intros [= <- <-]; exists []; split; [reflexivity|constructor]].
+  apply ceq_eq in C. subst x. intros [= <- <-]. exists ((d0 :: ds') ++ [c]).
+  split; [rewrite E, <- app_assoc; reflexivity|constructor; [discriminate|exact Hd]].
+Qed.
+Lemma tok_facts c o t : tok c o t -> is_xsd_ws c = false ->
+  matches (opt (du_n c)) t = true /\ no_ws t = true /\ (t <> [] -> matches (du_n c) t = true) /\
+  (t = [] \/ head_digit t = true).
+Proof.
+  intros [|ds Hne Hd] Hc; [repeat split; auto|].
+  assert (M : matches (du_n c) (ds ++ [c]) = true) by (unfold du_n; apply m_cat; [apply m_plus_cls; assumption|apply m_ch]).
+  repeat split; auto.
+  - apply m_opt_some, M.
+  - rewrite no_ws_app, (digits_no_ws _ Hd). cbn. rewrite Hc. reflexivity.
+  - right. destruct ds as [|d0 ds']; [congruence|]. cbn in Hd |- *. apply andb_true_iff in Hd. tauto.
+Qed.
+Inductive sectok : option (Z * option str) -> str -> Prop :=
+| SecNone : sectok None []
+| SecSome ds ft fr : ds <> [] -> forallb is_digit ds = true -> frac_text ft fr ->
+    sectok (Some (int_dec ds, fr)) (ds ++ ft ++ ["S"%char]).
+Lemma opt_seconds_shape s o r : opt_seconds s = (o, r) -> exists t, s = t ++ r /\ sectok o t.
+Proof.
+  unfold opt_seconds. destruct (span is_digit s) as [ds r0] eqn:Sp. destruct (span_spec _ _ _ _ Sp) as (E & Hd & _).
+  destruct ds as [|d0 ds']; cbn [is_nil]; [intros [= <- <-]; exists []; split; [reflexivity|constructor]|].
+  destruct (frac_group r0) as [fr r1] eqn:Fg. destruct (frac_group_shape _ _ _ Fg) as (ft & E1 & Hft).
+  destruct r1 as [|x r2]; [intros [= <- <-]; exists []; split; [reflexivity|constructor]|].
+  destruct (ceq x "S") eqn:C; [|intros [= <- <-]; exists []; split; [reflexivity|constructor]].
+  apply ceq_eq in C. subst x. intros [= <- <-]. exists ((d0 :: ds') ++ ft ++ ["S"%char]).
+  split; [rewrite E, E1, <- !app_assoc; reflexivity|constructor; [discriminate|exact Hd|exact Hft]].
+Qed.
+Lemma sectok_facts o t : sectok o t ->
+  matches (opt du_sec) t = true /\ no_ws t = true /\ (t <> [] -> matches du_sec t = true) /\ (t = [] \/ head_digit t = true).
+Proof.
+  intros [|ds ft fr Hne Hd Hft]; [repeat split; auto|].
+  destruct (frac_text_facts _ _ Hft) as [Mf Nf].
+  assert (M : matches du_sec (ds ++ ft ++ ["S"%char]) = true).
+  { unfold du_sec. cbn [cats]. apply m_cat; [apply m_plus_cls; assumption|]. apply m_cat; [exact Mf|apply m_ch]. }
+  repeat split; auto.
+  - apply m_opt_some, M.
+  - rewrite !no_ws_app, (digits_no_ws _ Hd), Nf. reflexivity.
+  - right. destruct ds as [|d0 ds']; [congruence|]. cbn in Hd |- *. apply andb_true_iff in Hd. tauto.
+Qed.
+Lemma head_digit_not_end s : head_digit s = true -> at_end s = false.
+Proof.
+  destruct s as [|c [|? ?]]; cbn; try discriminate; try reflexivity. intros H.
+  destruct (ceq c "010") eqn:C; [|reflexivity]. apply ceq_eq in C. subst c. discriminate.
+Qed.
+Lemma head_digit_app_nil t r : t = [] \/ head_digit t = true -> head_digit (t ++ r) = true -> t = [] -> head_digit r = true.
+Proof. intros _ H ->. exact H. Qed.
+
+Lemma time_tokens_valid tH tMi tS oh om os :
+  tok "H" oh tH -> tok "M" om tMi -> sectok os tS -> head_digit (tH ++ tMi ++ tS) = true ->
+  matches du_time ("T"%char :: tH ++ tMi ++ tS) = true /\ no_ws (tH ++ tMi ++ tS) = true.
+Proof.
+  intros KH KM KS Hh.
+  destruct (tok_facts _ _ _ KH eq_refl) as (OH & NH & MH & _). destruct (tok_facts _ _ _ KM eq_refl) as (OM & NM & MM & _).
+  destruct (sectok_facts _ _ KS) as (OS & NS & MS & _).
+  split; [|rewrite !no_ws_app, NH, NM, NS; reflexivity].
+  unfold du_time. apply m_cons_ch. cbn [alts].
+  destruct tH as [|h0 tH'].
+  - cbn [app]. apply m_altr. destruct tMi as [|m0 tM'].
+    + cbn [app] in *. apply m_altr. apply MS. destruct tS; [discriminate|discriminate].
+    + apply m_altl. apply m_cat; [apply MM; discriminate|exact OS].
+  - apply m_altl. cbn [cats]. apply m_cat; [apply MH; discriminate|]. apply m_cat; assumption.
+Qed.
+
+Lemma dur_body_valid neg s0 v : parse_dur_body neg s0 = Ok v ->
+  exists core w2, s0 = "P"%char :: core ++ w2 /\ forallb is_xsd_ws w2 = true /\ no_ws core = true /\
+                  matches (Alt (Cat du_ymd (opt du_time)) du_time) core = true.
+Proof.
+  unfold parse_dur_body. destruct s0 as [|p s1]; [discriminate|].
+  destruct (ceq p "P" && _) eqn:C; [|discriminate]. apply andb_true_iff in C as [Cp LA]. apply ceq_eq in Cp. subst p.
+  destruct (opt_field "Y" s1) as [oy s2] eqn:FY. destruct (opt_field_shape _ _ _ _ FY) as (tY & EY & KY).
+  destruct (opt_field "M" s2) as [om s3] eqn:FM. destruct (opt_field_shape _ _ _ _ FM) as (tM & EM & KM).
+  destruct (opt_field "D" s3) as [od s4] eqn:FD. destruct (opt_field_shape _ _ _ _ FD) as (tD & ED & KD).
+  destruct (tok_facts _ _ _ KY eq_refl) as (OY & NY & MY & HY). destruct (tok_facts _ _ _ KM eq_refl) as (OM & NM & MM & HM).
+  destruct (tok_facts _ _ _ KD eq_refl) as (OD & ND & MD & HD).
+  (* the date tokens as a du_ymd, when at least one is present *)
+  assert (YMD : tY ++ tM ++ tD <> [] -> matches du_ymd (tY ++ tM ++ tD) = true).
+  { intros Hne. unfold du_ymd. cbn [alts]. destruct tY as [|y0 tY'].
+    - cbn [app] in *. apply m_altr. destruct tM as [|m0 tM'].
+      + cbn [app] in *. apply m_altr. apply MD, Hne.
+      + apply m_altl. apply m_cat; [apply MM; discriminate|exact OD].
+    - apply m_altl. cbn [cats]. apply m_cat; [apply MY; discriminate|]. apply m_cat; assumption. }
+  assert (NYMD : no_ws (tY ++ tM ++ tD) = true) by (rewrite !no_ws_app, NY, NM, ND; reflexivity).
+  assert (Es1 : s1 = (tY ++ tM ++ tD) ++ s4) by (rewrite EY, EM, ED, <- !app_assoc; reflexivity).
+  destruct s4 as [|t s5].
+  - (* no time part, end of text *)
+    intros _. exists (tY ++ tM ++ tD), []. rewrite app_nil_r in Es1 |- *.
+    split; [rewrite Es1; reflexivity|]. split; [reflexivity|]. split; [exact NYMD|].
+    apply m_altl. rewrite <- (app_nil_r (tY ++ tM ++ tD)). apply m_cat; [|reflexivity]. apply YMD.
+    intros E0. rewrite Es1, E0 in LA. discriminate.
+  - destruct (ceq t "T" && head_digit s5) eqn:CT.
+    + apply andb_true_iff in CT as [CT HS5]. apply ceq_eq in CT. subst t.
+      destruct (opt_field "H" s5) as [oh s6] eqn:FH. destruct (opt_field_shape _ _ _ _ FH) as (tH & EH & KH).
+      destruct (opt_field "M" s6) as [omi s7] eqn:FMi. destruct (opt_field_shape _ _ _ _ FMi) as (tMi & EMi & KMi).
+      destruct (opt_seconds s7) as [os s8] eqn:FS. destruct (opt_seconds_shape _ _ _ FS) as (tS & ES & KS).
+      destruct (at_end s8) eqn:AE; [|discriminate]. intros _.
+      assert (Es5 : s5 = (tH ++ tMi ++ tS) ++ s8) by (rewrite EH, EMi, ES, <- !app_assoc; reflexivity).
+      assert (HT : head_digit (tH ++ tMi ++ tS) = true).
+      { destruct (tH ++ tMi ++ tS) as [|c0 r0] eqn:E0; [|rewrite Es5 in HS5; exact HS5].
+        cbn [app] in Es5. rewrite Es5 in HS5. rewrite (head_digit_not_end _ HS5) in AE. discriminate. }
+      destruct (time_tokens_valid _ _ _ _ _ _ KH KMi KS HT) as [MT NT].
+      exists ((tY ++ tM ++ tD) ++ "T"%char :: tH ++ tMi ++ tS), s8.
+      split; [rewrite Es1, Es5; repeat (rewrite <- app_assoc; cbn [app]); reflexivity|]. split; [apply at_end_ws, AE|]. split.
+      * rewrite no_ws_app, NYMD, no_ws_cons, NT. reflexivity.
+      * destruct (tY ++ tM ++ tD) as [|c0 r0] eqn:E0.
+        -- cbn [app]. apply m_altr. exact MT.
+        -- apply m_altl. apply m_cat; [apply YMD; discriminate|apply m_opt_some, MT].
+    + destruct (at_end (t :: s5)) eqn:AE; [|discriminate]. intros _.
+      exists (tY ++ tM ++ tD), (t :: s5). split; [rewrite Es1; reflexivity|]. split; [apply at_end_ws, AE|]. split; [exact NYMD|].
+      apply m_altl. rewrite <- (app_nil_r (tY ++ tM ++ tD)). apply m_cat; [|reflexivity]. apply YMD.
+      intros E0. rewrite E0 in Es1. cbn [app] in Es1. rewrite Es1 in LA.
+      (* the look-ahead demands a digit or T+digit, but the text is at its end *)
+      apply at_end_shape in AE as [AE|AE]; [discriminate|]. injection AE as -> ->. cbn in LA. discriminate.
+Qed.
+Lemma opt_minus_shape s neg s0 : opt_minus s = (neg, s0) -> s = (if neg then ["-"%char] else []) ++ s0.
+Proof.
+  unfold opt_minus. destruct s as [|c r]; [intros [= <- <-]; reflexivity|].
+  destruct (ceq c "-") eqn:C; intros [= <- <-]; [apply ceq_eq in C; subst; reflexivity|reflexivity].
+Qed.
+Lemma dur_accept_valid s v : parse_duration s = Ok v -> valid_xsd_duration s = true.
+Proof.
+  rewrite parse_duration_eq. destruct (opt_minus s) as [neg s0] eqn:Om. intros H.
+  destruct (dur_body_valid _ _ _ H) as (core & w2 & E0 & Hw & Nc & Mc).
+  apply opt_minus_shape in Om. unfold valid_xsd_duration.
+  assert (Es : s = ((if neg then ["-"%char] else []) ++ "P"%char :: core) ++ w2) by (rewrite Om, E0, <- app_assoc; reflexivity).
+  rewrite Es.
+  pose proof (ws_collapse_core [] ((if neg then ["-"%char] else []) ++ "P"%char :: core) w2 eq_refl
+                ltac:(rewrite no_ws_app, no_ws_cons, Nc; destruct neg; reflexivity) Hw) as K.
+  cbn [app] in K. cbn [app]. rewrite K.
+  unfold duration_re. cbn [cats]. apply m_cat; [destruct neg; reflexivity|]. apply m_cons_ch. exact Mc.
+Qed.
+Lemma dur_reject_literal s : valid_xsd_duration s = false -> parse_duration s = Err ValueError.
+Proof.
+  intros H. destruct (parse_duration s) as [v|e] eqn:E.
+  - apply dur_accept_valid in E. congruence.
+  - f_equal. revert E. rewrite parse_duration_eq. destruct (opt_minus s) as [neg s0]. unfold parse_dur_body.
+    destruct s0 as [|p s1]; [congruence|]. destruct (_ && _); [|congruence].
+    destruct (opt_field "Y" s1) as [? s2]. destruct (opt_field "M" s2) as [? s3]. destruct (opt_field "D" s3) as [? s4].
+    match goal with |- context [match ?tg with Some _ => _ | None => _ end] => destruct tg as [[[? ?] ?]|] end; congruence.
+Qed.
